@@ -175,6 +175,9 @@ class GenA:
             w.append(("cp", P["cancel"] * 0.7 * len(pp)))
             w.append(("cg", P["cancel"] * 0.7 * len(pg)))
         w.append(("adv", P["adv"]))
+        if h.env.peek() <= h.env.now and not P["mis"] and not P["probe"]:
+            # (not in runs with twin comparisons: a probe's own token events would shift what "n kernel events" means)
+            w.append(("step", 0.6 * P["adv"]))
         if self.last is not None and self.last[0] == "cg":
             w = [(k, x * (3.0 if k == "rg" else 2.0 if k == "get" else 1.0)) for k, x in w]
         k = wchoice(rng, w)
@@ -203,6 +206,8 @@ class GenA:
             return ["cg", t.c, t.name]
         if k == "probe":
             return ["probe"]
+        if k == "step":
+            return ["step", rng.choice([1, 1, 2, 3])]
         if k == "mis":
             op = self.misuse(h, toks, gp, pp, gg, pg)
             if op is not None:
